@@ -16,6 +16,15 @@ bytes) -> deserialize; EventQueueManager.inject_message on a real Session/Proxie
   clause msg-llsd-repeatable  serialize twice on one Message gives identical output; deserialize twice on one dict object both
                               succeed and equal the original; deserialize(d) then format_xml(d) -> deserialize equals it too
                               (http_event_manager deserializes an event and then forwards the same dict as XML)
+  clause msg-llsd-history-independent  (family "hist") for every template with >= 2 blocks or a Variable block and every pair
+                              (m_small, m_full) -- m_small = each trailing-block omission / Variable counts 0 / one Variable block
+                              left out, m_full = every block present -- every ordered pair (incl. repeats) of the 5 operations
+                              {serialize(small), deserialize(dict small), serialize(full), deserialize(dict full), deserialize(xml
+                              full)} on ONE serializer instance gives, for each operation, exactly what a FRESH instance gives
+                              for the same input; the same for two inject_message calls on one EventQueueManager (its long-lived
+                              serializer).  Site "LLSDMessageSerializer:<op1>-then-<op2>:<MVT type | block:<name> | raises>".
+                              Families msg / hist use a fresh serializer and a fresh EventQueueManager per case, so no history
+                              leaks between cases.
   clause msg-eq-inject        the injected event equals the serializer output (value and LLSD type), exactly one event is
                               queued and exactly one PlacesQuery wake-up datagram is sent
 
@@ -872,8 +881,7 @@ def check_msg_case(part: Part, gen: msggen.Gen, case: dict, ser: LLSDMessageSeri
                        f"serialize() changed the Message: {_first_diff(msg_before, msg_snapshot(msg))}")
     # ---- consumer
     _, _, region, transport = _eq_world()
-    eqm = region.eq_manager
-    eqm.clear()
+    eqm = _fresh_eqm(region)
     del transport.packets[:]
     try:
         eqm.inject_message(gen.lib_message(case))
@@ -898,6 +906,196 @@ def check_msg_case(part: Part, gen: msggen.Gen, case: dict, ser: LLSDMessageSeri
         part.count("eq_injections")
     part.outcome(("msg", len(xml) if xml is not None else -1, digest_canon(d)))
     part.mark_nontrivial(("msg", name, tuple((b, len(r)) for b, r in case["blocks"]), case.get("tag")))
+
+
+def _fresh_eqm(region):
+    """A new EventQueueManager (with its own long-lived LLSDMessageSerializer) on the worker's region: no history leaks
+    from one case to the next."""
+    from hippolyzer.lib.proxy.region import EventQueueManager
+    eqm = EventQueueManager(region)
+    region.eq_manager = eqm
+    return eqm
+
+
+# ---- serializer history -------------------------------------------------------------------------------------------------
+HIST_OPS = ["serialize(small)", "deserialize(dict small)", "serialize(full)", "deserialize(dict full)", "deserialize(xml full)"]
+EQ_OPS = ["inject(small)", "inject(full)"]
+
+
+def history_pairs(gen: msggen.Gen, name: str):
+    """(m_small, m_full) pairs of one template: m_full = row 1 with every block present; m_small = each trailing-block
+    omission, Variable counts 0, and each single Variable block left out altogether (a Variable block may have no instances)."""
+    tmpl = gen.templates[name]
+    if len(tmpl.blocks) < 2 and not any(b.kind == "Variable" for b in tmpl.blocks):
+        return
+    full = {"name": name, **_HDR, "blocks": gen.blocks(tmpl, 1, {}), "tag": "full"}
+    seen = set()
+    smalls = []
+    for nb in range(1, len(tmpl.blocks)):
+        smalls.append({"name": name, **_HDR, "blocks": gen.blocks(tmpl, 0, {}, nblocks=nb), "tag": f"prefix{nb}"})
+    vb = [b.name for b in tmpl.blocks if b.kind == "Variable"]
+    if vb:
+        smalls.append({"name": name, **_HDR, "blocks": gen.blocks(tmpl, 0, {b: 0 for b in vb}), "tag": "count0"})
+        for b0 in vb:
+            smalls.append({"name": name, **_HDR, "blocks": [(b, r) for b, r in gen.blocks(tmpl, 0, {}) if b != b0], "tag": f"without:{b0}"})
+    for sm in smalls:
+        key = repr(sm["blocks"])
+        if key in seen or not sm["blocks"]:
+            continue
+        seen.add(key)
+        yield sm, full
+
+
+def _hist_inputs(gen, small, full):
+    """Inputs of the operations, each produced by its own fresh serializer instance."""
+    return {
+        "small_dict": LLSDMessageSerializer().serialize(gen.lib_message(small), as_dict=True),
+        "full_dict": LLSDMessageSerializer().serialize(gen.lib_message(full), as_dict=True),
+        "full_xml": LLSDMessageSerializer().serialize(gen.lib_message(full)),
+    }
+
+
+def _hist_apply(ser, op: str, gen, small, full, inputs):
+    """-> ("dict", canonical form) for serialize ops, ("msg", snapshot) for deserialize ops."""
+    if op == "serialize(small)":
+        return ("dict", canon(ser.serialize(gen.lib_message(small), as_dict=True)))
+    if op == "serialize(full)":
+        return ("dict", canon(ser.serialize(gen.lib_message(full), as_dict=True)))
+    if op == "deserialize(dict small)":
+        return ("msg", msg_snapshot(ser.deserialize(inputs["small_dict"])))
+    if op == "deserialize(dict full)":
+        return ("msg", msg_snapshot(ser.deserialize(inputs["full_dict"])))
+    if op == "deserialize(xml full)":
+        return ("msg", msg_snapshot(ser.deserialize(inputs["full_xml"])))
+    raise ValueError(op)
+
+
+def _hist_where(ref, got, vtypes) -> List[str]:
+    """Name what differs between a fresh-instance result and the result on the instance with a history: MVT type of each
+    differing variable, else the block."""
+    out = set()
+    if ref[0] == "dict":
+        rb, gb = ref[1][1]["body"][1], got[1][1]["body"][1]  # ("map", {...})["body"] -> ("map", {block: ("array", [...])})
+        for bname in rb:
+            if bname not in gb or len(rb[bname][1]) != len(gb[bname][1]):
+                out.add(f"block:{bname}")
+                continue
+            for r, g in zip(rb[bname][1], gb[bname][1]):
+                for vn in r[1]:
+                    if vn not in g[1] or r[1][vn] != g[1][vn]:
+                        t = vtypes.get((bname, vn))
+                        out.add(t.name if t is not None else f"block:{bname}")
+        for bname in gb:
+            if bname not in rb:
+                out.add(f"block:{bname}")
+    else:
+        rb, gb = dict(ref[1]), dict(got[1])
+        for bname in rb:
+            if bname not in gb or len(rb[bname]) != len(gb[bname]):
+                out.add(f"block:{bname}")
+                continue
+            for r, g in zip(rb[bname], gb[bname]):
+                gd = {vn: (tn, rp) for vn, tn, rp in g}
+                for vn, tn, rp in r:
+                    if gd.get(vn) != (tn, rp):
+                        t = vtypes.get((bname, vn))
+                        out.add(t.name if t is not None else f"block:{bname}")
+        for bname in gb:
+            if bname not in rb:
+                out.add(f"block:{bname}")
+    return sorted(out) or ["?"]
+
+
+def check_history_pair(part: Part, gen, small, full, op1: str, op2: str, vtypes, inputs=None, refs=None):
+    name = full["name"]
+    witness = {"family": "hist", "seed": gen.seed, "small": small, "full": full, "ops": [op1, op2]}
+    part.count("evaluations")
+    part.count("hist_evaluations")
+    try:
+        inputs = inputs or _hist_inputs(gen, small, full)
+        if refs is None:
+            refs = {}
+        for op in (op1, op2):
+            if op not in refs:
+                refs[op] = _hist_apply(LLSDMessageSerializer(), op, gen, small, full, inputs)  # FRESH instance per operation
+    except Exception:
+        part.count("hist_skipped_fresh_instance_fails")  # a defect of the plain round trip: reported by family msg
+        return
+    ser = LLSDMessageSerializer()  # ONE long-lived instance for the two operations
+    for i, op in enumerate((op1, op2)):
+        try:
+            got = _hist_apply(ser, op, gen, small, full, inputs)
+        except Exception as e:
+            part.violation("msg-llsd-history-independent", f"LLSDMessageSerializer:{op1}-then-{op2}:raises", witness,
+                           f"{name} ({small['tag']}): operation {i + 1} raised {type(e).__name__}: {str(e)[:200]} on the used instance; a fresh one succeeds")
+            break
+        if got != refs[op]:
+            for wh in _hist_where(refs[op], got, vtypes):
+                part.violation("msg-llsd-history-independent", f"LLSDMessageSerializer:{op1}-then-{op2}:{wh}", witness,
+                               f"{name} ({small['tag']}): result of operation {i + 1} ({op}) differs from a fresh serializer's: "
+                               f"{_first_diff(refs[op][1], got[1])}")
+    part.outcome(("hist", op1, op2, digest_canon_c(refs[op2])))
+    part.mark_nontrivial(("hist", name, small["tag"], op1, op2))
+
+
+def check_history_eq(part: Part, gen, small, full, op1: str, op2: str, vtypes):
+    """The long-lived serializer inside EventQueueManager: two injections on one manager; every queued event equals what a
+    fresh serializer writes for that message."""
+    name = full["name"]
+    witness = {"family": "hist", "seed": gen.seed, "small": small, "full": full, "ops": [op1, op2]}
+    part.count("evaluations")
+    part.count("hist_eq_evaluations")
+    cases = {"inject(small)": small, "inject(full)": full}
+    try:
+        refs = [("dict", canon(LLSDMessageSerializer().serialize(gen.lib_message(cases[op]), as_dict=True))) for op in (op1, op2)]
+    except Exception:
+        part.count("hist_skipped_fresh_instance_fails")
+        return
+    _, _, region, transport = _eq_world()
+    eqm = _fresh_eqm(region)
+    del transport.packets[:]
+    try:
+        for op in (op1, op2):
+            eqm.inject_message(gen.lib_message(cases[op]))
+        events = eqm.take_injected_events()
+    except Exception as e:
+        part.violation("msg-llsd-history-independent", f"EventQueueManager.inject_message:{op1}-then-{op2}:raises", witness,
+                       f"{name} ({small['tag']}): raised {type(e).__name__}: {str(e)[:200]}")
+        return
+    finally:
+        del transport.packets[:]
+    if len(events) != 2:
+        part.violation("msg-llsd-history-independent", f"EventQueueManager.inject_message:{op1}-then-{op2}:event-count", witness, f"{len(events)} events")
+        return
+    for i, (ev, ref) in enumerate(zip(events, refs)):
+        got = ("dict", canon(ev))
+        if got != ref:
+            for wh in _hist_where(ref, got, vtypes):
+                part.violation("msg-llsd-history-independent", f"EventQueueManager.inject_message:{op1}-then-{op2}:{wh}", witness,
+                               f"{name} ({small['tag']}): event {i + 1} differs from a fresh serializer's output: {_first_diff(ref[1], got[1])}")
+    part.mark_nontrivial(("hist-eq", name, small["tag"], op1, op2))
+
+
+def check_history(part: Part, gen, name: str, vtypes):
+    for small, full in history_pairs(gen, name):
+        try:
+            inputs = _hist_inputs(gen, small, full)
+        except Exception:
+            part.count("hist_skipped_fresh_instance_fails", len(HIST_OPS) ** 2 + len(EQ_OPS) ** 2)
+            continue
+        refs: Dict[str, Any] = {}
+        for op1 in HIST_OPS:
+            for op2 in HIST_OPS:
+                check_history_pair(part, gen, small, full, op1, op2, vtypes, inputs, refs)
+        for op1 in EQ_OPS:
+            for op2 in EQ_OPS:
+                check_history_eq(part, gen, small, full, op1, op2, vtypes)
+        part.count("hist_pairs")
+
+
+def digest_canon_c(c) -> str:
+    import hashlib
+    return hashlib.blake2b(repr(c).encode("utf8", "backslashreplace"), digest_size=8).hexdigest()
 
 
 def digest_canon(d) -> str:
@@ -929,18 +1127,18 @@ def _work(unit):
         _set_tz("UTC")
         from hippolyzer.lib.base.message.udpdeserializer import UDPMessageDeserializer
         gen = _G
-        ser = LLSDMessageSerializer()
         de_udp = UDPMessageDeserializer()
         for name in unit[1]:
             vtypes = _var_types(name)
             n = 0
             for c in value_rows(gen, name):
-                check_msg_case(part, gen, c, ser, vtypes, de_udp)
+                check_msg_case(part, gen, c, LLSDMessageSerializer(), vtypes, de_udp)
                 if n == 1:
                     part.sample({"family": "msg", **msggen.case_summary(c)}, limit=1)
                 n += 1
             for c in gen.count_variants(name):
-                check_msg_case(part, gen, c, ser, vtypes, de_udp)
+                check_msg_case(part, gen, c, LLSDMessageSerializer(), vtypes, de_udp)
+            check_history(part, gen, name, vtypes)
     elif kind == "tree":
         _, tz, lo, hi = unit
         _set_tz(tz)
@@ -994,7 +1192,10 @@ def run(run: Run):
     run.rule = (
         "msg: for each of the %d templates value rows 0..L-1 (every alphabet element of every variable occurs; finite floats, XML-legal "
         "text) + Variable-block counts {0,2,255}, mixed counts, every trailing-block omission, each through dict, XML and "
-        "EventQueueManager.inject_message; tree: all %d LLSD trees of depth <= %d over %d leaves / containers {array,map} of size 0..2 "
+        "EventQueueManager.inject_message (fresh serializer / manager per case); hist: for every template with >= 2 blocks or a Variable "
+        "block, every (m_small, m_full) pair (trailing-block omissions, counts 0, one Variable block left out) x all 25 ordered pairs of "
+        "{serialize small/full, deserialize dict small/full, deserialize xml full} on one serializer instance vs a fresh instance per "
+        "operation, + 4 ordered pairs of inject_message on one EventQueueManager; tree: all %d LLSD trees of depth <= %d over %d leaves / containers {array,map} of size 0..2 "
         "(each-choice sibling pairs%s; %d map keys cycled) x %d codecs x %d process time zones; us: every microsecond value 0..%d of one "
         "date x {binary, notation, xml}. distinct_nontrivial = distinct (template, block counts, row tag) + distinct (tz, codec, tree "
         "shape, leaf-kind set)" % (len(names), len(_TREES), depth, len(LEAVES), "" if quick else ", full cross product at depth 2",
@@ -1025,6 +1226,17 @@ def _replay_child(w):
     elif fam == "us":
         _set_tz("UTC")
         check_us(part, w["codec"], int(w["us"]))
+    elif fam == "hist":
+        _set_tz("UTC")
+        gen = make_gen(int(w.get("seed", 0)))
+        for k in ("small", "full"):
+            w[k]["acks"] = tuple(w[k]["acks"])
+            w[k]["blocks"] = [(b, rows) for b, rows in w[k]["blocks"]]
+        op1, op2 = w["ops"]
+        if op1 in EQ_OPS:
+            check_history_eq(part, gen, w["small"], w["full"], op1, op2, _var_types(w["full"]["name"]))
+        else:
+            check_history_pair(part, gen, w["small"], w["full"], op1, op2, _var_types(w["full"]["name"]))
     else:
         _set_tz("UTC")
         from hippolyzer.lib.base.message.udpdeserializer import UDPMessageDeserializer
